@@ -13,7 +13,7 @@ Mod(name, en, args, kind, b, base, mask) ==
 NoPrior == [x \in Buckets |-> EMPTY]
 DirtyPrior == [photon |-> 41, charge |-> 42, pixel |-> 43, signal |-> 44, image |-> 45, scene |-> 46, data |-> 47]
 
-AllMask == 255
+AllMask == -1
 ImgWriter == Mod("img", TRUE, "i", "set", "image", 60, AllMask)
 
 TimesOf(n) == [k \in 1 .. n |-> 3 * k - 1]       \* 2, 5, 8, ...
@@ -49,26 +49,27 @@ FamPairs(_z) ==
 \* ---- family "sched": all schedules (valid and invalid), write patterns, priors
 SeqsUpTo(S, n) == UNION { [1 .. k -> S] : k \in 0 .. n }
 
-SchedPipe(m1, m2, m3) ==
+SchedPipe(m1, m2, m3, ck) ==
   [k \in 1 .. NG |->
      CASE k = 2  -> << Mod("w1", TRUE, "x", "set", "photon", 5, m1) >>
-       [] k = 4  -> << Mod("w2", TRUE, "y", "add", "charge", 3, m2) >>
+       [] k = 4  -> << Mod("w2", TRUE, "y", ck, "charge", 3, m2) >>
        [] k = 5  -> << Mod("w3", TRUE, "z", "add", "pixel", 7, m3), Mod("w4", TRUE, "s", "set", "signal", 20, m1) >>
        [] k = 9  -> << ImgWriter >>
        [] k = 10 -> << Mod("last", TRUE, "o", "obs", "photon", 0, 0) >>
        [] OTHER  -> << >> ]
 
 FamSched(_z) ==
-  { Cfg(SchedPipe(m1, m2, m3), ts, st, nd, pr) :
+  { Cfg(SchedPipe(m1, m2, m3, ck), ts, st, nd, pr) :
       ts \in SeqsUpTo(0 .. MAXTICK, MAXLEN), st \in {-1, 0, 2}, nd \in BOOLEAN,
-      m1 \in {0, 1, 5, 7}, m2 \in {0, 2, 7}, m3 \in {0, 3, 6, 7}, pr \in {NoPrior, DirtyPrior} }
+      m1 \in {0, 1, 5, 7}, m2 \in {0, 2, 7}, m3 \in {0, 3, 6, 7}, pr \in {NoPrior, DirtyPrior},
+      ck \in {"add", "padd"} }
 
 \* ---- family "writers": result record: every bucket written or not per step, scene/data
 WritersPipe(mp, mc, mx, ms, mi, msc, md) ==
   [k \in 1 .. NG |->
      CASE k = 1  -> << Mod("sc", TRUE, "a", "set", "scene", 70, msc) >>
        [] k = 2  -> << Mod("ph", TRUE, "b", "set", "photon", 10, mp) >>
-       [] k = 4  -> << Mod("ch", TRUE, "c", "add", "charge", 20, mc) >>
+       [] k = 4  -> << Mod("ch", TRUE, "c", "add", "charge", 20, mc), Mod("cp", TRUE, "h", "padd", "charge", 25, mx) >>
        [] k = 5  -> << Mod("px", TRUE, "d", "add", "pixel", 30, mx) >>
        [] k = 7  -> << Mod("sg", TRUE, "e", "set", "signal", 40, ms) >>
        [] k = 9  -> << Mod("im", TRUE, "f", "set", "image", 50, mi) >>
@@ -106,7 +107,7 @@ Compositions(total, maxparts) ==   \* strictly increasing sequences ending at `t
 
 FluxPipe(useIll, useChg, q) ==
   [k \in 1 .. NG |->
-     CASE k = 2  -> << Mod("ill", useIll, "a", "flux", "photon", 6, AllMask) >>
+     CASE k = 2  -> << Mod("ill", TRUE, "a", "flux", "photon", IF useIll THEN 6 ELSE 0, AllMask) >>   \* conversion needs photons
        [] k = 4  -> << Mod("conv", TRUE, "b", "conv", "charge", q, AllMask), Mod("chg", useChg, "c", "flux", "charge", 4, AllMask) >>
        [] k = 5  -> << Mod("coll", TRUE, "d", "collect", "pixel", 0, AllMask) >>
        [] k = 9  -> << ImgWriter >>
@@ -115,7 +116,7 @@ FluxPipe(useIll, useChg, q) ==
 FamFlux(_z) ==
   { Cfg(FluxPipe(ui, uc, q), [k \in 1 .. Len(s) |-> s[k] + st], st, nd, NoPrior) :
       s \in Compositions(MAXTICK, MAXLEN), st \in {0, 1, 3}, nd \in BOOLEAN,
-      ui \in BOOLEAN, uc \in BOOLEAN, q \in {1, 2} }
+      ui \in BOOLEAN, uc \in BOOLEAN, q \in {1, 2} }   \* q/2 = quantum efficiency 0.5 or 1
 
 \* (operators with a parameter are not pre-evaluated by TLC at start-up)
 CfgSet(_z) ==
